@@ -75,6 +75,7 @@ def run(ck):
     ck.rule("R2", "each emitted instruction is tested against the accumulated output before being added", floor=1)
     ck.rule("R3", "a pinned chain outside the destination interval is rejected", floor=1)
     ck.rule("R4", "the forward placement loop advances by each block's size", floor=1)
+    _rework_rules(ck)
 
     for q, include_pinned in (("BlockChain.place", True), ("BlockChain.fix_blocks", False)):
         fn = m.func(q)
@@ -141,3 +142,90 @@ def run(ck):
             ok = True
     ok = ok and any(isinstance(n, ast.Assign) and norm(n.value) == "interval([(chain.offset_min, chain.offset_max - 1)])" for n in walk_body(fn))
     ck.ob("R3", "get_blockchains_address_interval", ok, m.where(fn), "pinned chains are not tested against the destination interval")
+
+
+def _rework_rules(ck):
+    """R5: "every reference resolved to the label's final address" - the fix-point of asmblock_final re-assembles a block whenever
+    its own address changes (its relative branches to numeric addresses change encoding) and whenever a label it uses moves.
+    For each modified loc_key, on every path of the propagation loop, the block located at that loc_key is enqueued (directly, or
+    because every block was registered under its own loc_key on every path of the table-building loop) and so is every block using
+    it; the outer loop stops only on an empty worklist and drains the worklist through assemble_block."""
+    from sa.pathob import undischarged, path_text
+    ck.rule("R5", "asmblock_final re-assembles a block when it moves and when a label it references moves, until nothing is left", floor=4)
+    m = ck.repo.mod(REL)
+    fn = m.func("asmblock_final")
+    cfg = CFG(fn)
+    loops = [nd for nd in cfg.nodes if nd.kind == "for"]
+    prop = [nd for nd in loops if norm(nd.ast.iter) == "modified_loc_keys"]
+    ck.need(prop, "asmblock_final: propagation loop over modified_loc_keys not found")
+    L = prop[0]
+    key = norm(L.ast.target)
+
+    # (A) direct: blocks_to_rework.add(asmcfg.loc_key_to_block(key)) unless None
+    def adds_moved(nd):
+        for c in node_calls(nd):
+            if callee_attr(c) in ("add", "update") and "rework" in norm(c.func.value) and c.args:
+                a = c.args[0]
+                t = norm(a)
+                if "loc_key_to_block(%s)" % key in t:
+                    return True
+                if isinstance(a, ast.Name):
+                    for n in walk_body(fn):
+                        if isinstance(n, ast.Assign) and norm(n.targets[0]) == a.id and "loc_key_to_block(%s)" % key in norm(n.value):
+                            return True
+        return False
+
+    def none_edge(nd, label):
+        if nd.kind != "test":
+            return False
+        t = norm(nd.ast)
+        return (t.endswith("is not None") and label is False) or (t.endswith("is None") and label is True)
+    pA = undischarged(cfg, adds_moved, edge_ok=none_edge, start=(L.id, "iter"), targets=[L.id])
+    # (B) through the table: every block registered under its own loc_key on every path of the building loop
+    tabB = False
+    build = [nd for nd in loops if norm(nd.ast.iter) in ("asmcfg.blocks", "asmcfg.blocks()")]
+    for bl in build:
+        b = norm(bl.ast.target)
+
+        def registers_self(nd, b=b):
+            for c in node_calls(nd):
+                if callee_attr(c) == "add" and c.args and norm(c.args[0]) == "%s.loc_key" % b:
+                    return True
+                if callee_attr(c) == "setdefault" and c.args and norm(c.args[0]) == "%s.loc_key" % b:
+                    return True
+            return False
+        if any(registers_self(nd) for nd in cfg.nodes):
+            tabB = undischarged(cfg, registers_self, start=(bl.id, "iter"), targets=[bl.id]) is None
+    ck.ob("R5", "asmblock_final:moved-block-reassembled", pA is None or tabB, m.where(L.ast),
+          "a block whose own address changed is not re-enqueued on every path (%s): a block that references no label keeps the "
+          "encoding of its relative branches computed for its previous address" % (path_text(pA) if pA else ""))
+
+    # users of the label
+    def adds_users(nd):
+        if nd.kind == "for" and "blocks_using_loc_key" in norm(nd.ast.iter):
+            return any(callee_attr(c) == "add" and "rework" in norm(c.func.value) for st in nd.ast.body for c in walk_local(st) if isinstance(c, ast.Call))
+        for c in node_calls(nd):
+            if callee_attr(c) == "update" and "rework" in norm(c.func.value) and c.args and "blocks_using_loc_key" in norm(c.args[0]):
+                return True
+        return False
+
+    def absent_edge(nd, label):
+        if nd.kind != "test":
+            return False
+        t = norm(nd.ast)
+        return ("%s not in blocks_using_loc_key" % key == t and label is True) or ("%s in blocks_using_loc_key" % key == t and label is False)
+    pU = undischarged(cfg, adds_users, edge_ok=absent_edge, start=(L.id, "iter"), targets=[L.id])
+    ck.ob("R5", "asmblock_final:users-reassembled", pU is None, m.where(L.ast),
+          "the blocks referencing a moved label are not all re-enqueued: %s" % (path_text(pU) if pU else ""))
+    # every block is analysed for the labels it uses (no block skipped when building the table)
+    for bl in build:
+        uses = [nd for nd in cfg.nodes if any(callee_attr(c) == "setdefault" and "blocks_using_loc_key" in norm(c.func.value) for c in node_calls(nd))]
+        ck.ob("R5", "asmblock_final:table-covers-every-block", bool(uses), m.where(bl.ast), "the label-use table is not filled from every block")
+    # termination test and drain
+    drains = any(isinstance(n, ast.Call) and dotted(n.func) == "assemble_block" and len(n.args) >= 2 for n in walk_body(fn))
+    brk = [nd for nd in cfg.nodes if nd.kind == "stmt" and isinstance(nd.ast, ast.Break)]
+    from sa.facts import guard_facts, falsy
+    gf = guard_facts(cfg)
+    ok_brk = bool(brk) and all(falsy(gf.get(b.id, frozenset()), "blocks_to_rework") for b in brk)
+    ck.ob("R5", "asmblock_final:stops-only-when-idle", drains and ok_brk, m.where(fn),
+          "the fix-point loop can stop while blocks are still queued, or queued blocks are not assembled")
